@@ -269,3 +269,52 @@ fn test_object_with_failing_display() {
     let err = env.render_str("{{ obj.missing.attr }}", &ctx).unwrap_err();
     let _ = format!("{err:#}{err:?}");
 }
+
+#[test]
+fn test_object_with_failing_display_does_not_hide_a_failing_writer() {
+    use minijinja::value::Object;
+    use std::error::Error as _;
+    use std::sync::Arc;
+    use std::{fmt, io};
+
+    #[derive(Debug)]
+    struct Broken;
+
+    impl Object for Broken {
+        fn render(self: &Arc<Self>, f: &mut fmt::Formatter<'_>) -> fmt::Result {
+            f.write_str("<partial>")?;
+            Err(fmt::Error)
+        }
+    }
+
+    /// fails at the second write call
+    struct Sink(usize, Vec<u8>);
+
+    impl io::Write for Sink {
+        fn write(&mut self, buf: &[u8]) -> io::Result<usize> {
+            self.0 += 1;
+            if self.0 == 2 {
+                return Err(io::Error::new(io::ErrorKind::BrokenPipe, "sink is gone"));
+            }
+            self.1.extend_from_slice(buf);
+            Ok(buf.len())
+        }
+
+        fn flush(&mut self) -> io::Result<()> {
+            Ok(())
+        }
+    }
+
+    let env = Environment::new();
+    let tmpl = env.template_from_str("a{{ obj }}b").unwrap();
+    let mut sink = Sink(0, Vec::new());
+    let err = tmpl
+        .render_captured_to(context! { obj => Value::from_object(Broken) }, &mut sink)
+        .map(|_| ())
+        .unwrap_err();
+    assert_eq!(err.kind(), minijinja::ErrorKind::WriteFailure);
+    let io_err = err.source().unwrap().downcast_ref::<io::Error>().unwrap();
+    assert_eq!(io_err.kind(), io::ErrorKind::BrokenPipe);
+    // nothing was written after the failure
+    assert_eq!((sink.0, sink.1.as_slice()), (2, &b"a"[..]));
+}
